@@ -701,6 +701,11 @@ int dhcp_fastpath_prog(struct xdp_md *ctx) {
 		return XDP_PASS;
 	}
 
+	/* The reply needs room for its options. Check before the first write:
+	 * a frame handed to the slow path (XDP_PASS) must still be the request.
+	 */
+	CHECK_BOUNDS_PASS(pkt.dhcp->options, pkt.data_end, MAX_DHCP_REPLY_OPTIONS_LEN);
+
 	/* CACHE HIT - Fast path! Generate reply in kernel */
 	update_stat(STAT_FASTPATH_HIT);
 
@@ -766,8 +771,6 @@ int dhcp_fastpath_prog(struct xdp_md *ctx) {
 	__builtin_memset(pkt.dhcp->file, 0, sizeof(pkt.dhcp->file));
 
 	/* Build DHCP options */
-	CHECK_BOUNDS_PASS(pkt.dhcp->options, pkt.data_end, MAX_DHCP_REPLY_OPTIONS_LEN);
-
 	int opt_len = build_dhcp_options(pkt.dhcp->options, pkt.data_end,
 	                                  reply_type, pool, assignment,
 	                                  server_ip);
